@@ -8,9 +8,11 @@ META = {
         "17.b moon phase index = day - 1; minor Ren of a lunar month and of a lunar day",
         "17.d month nine star: first month 8 / 5 / 2 by year-branch group, one less each month",
         "17.e 28 mansions on the lunar-day and sexagenary-day routes: luminary = weekday, +1 per day (for every consistent weekday / day pillar pair)",
+        "17.c flying nine star of the year descends one per year from 1864 = One White (three 360-year windows; period 180), LunarYear and SixtyCycleYear",
+        "17.f flying nine star of the hour: ascending between the winter- and summer-solstice days, descending otherwise, first star by the day-branch group, one per double hour (lunar-hour and instant-level routes)",
         "17.g day officer: Jian exactly when day branch = month branch, +1 per branch; Yellow/Black-path spirit from the month (day) branch for days (hours)",
     ],
-    "outside": ["flying nine star of the year (float division by 20 in Twenty::from_index), of the day and of the hour (solstice-turning rules over real term days)",
+    "outside": ["flying nine star of the day (its boundary behaviour around the Jiazi days nearest the solstices has no independent statement to check against)", "flying nine star of the year outside the three windows",
                 "that the month pillar used by the day officer is the one C08 leaves outside (switching at Jie days)"],
     "assumptions": [
         "engine B object model: axioms A-index (11.d), A-pillar (19.h); weekday = (N+1) mod 7 (07.a) and day pillar = (N+49) mod 60 (07.c) for day number N",
@@ -30,4 +32,6 @@ def engine_b(tier, seed, scr):
         return err
     return [pillars.k_six_star(eng), almanac.k_phase_ren(eng, "phase"), almanac.k_phase_ren(eng, "ren-month"), almanac.k_phase_ren(eng, "ren-day"),
             pillars.k_month_nine_star(eng), almanac.k_mansion(eng, "LunarDay"), almanac.k_mansion(eng, "SixtyCycleDay"),
-            almanac.k_duty_twelve(eng, "duty"), almanac.k_duty_twelve(eng, "twelve"), almanac.k_hour_twelve(eng), almanac.k_lunar_hour_twelve(eng)]
+            almanac.k_duty_twelve(eng, "duty"), almanac.k_duty_twelve(eng, "twelve"), almanac.k_hour_twelve(eng), almanac.k_lunar_hour_twelve(eng),
+            almanac.k_hour_nine_star(eng, "LunarHour"), almanac.k_hour_nine_star(eng, "SixtyCycleHour")] + \
+           [almanac.k_year_nine_star(eng, w, lo, hi) for w in ("LunarYear", "SixtyCycleYear") for (lo, hi) in ((-1, 360), (1684, 2044), (9640, 9999))]
